@@ -46,6 +46,28 @@ def run(ctx):
 
 
 def serializer_rules(ctx, R):
+    # S6 first: the serializer interpreted per slot form and value shape.  When every scenario was followed, the rules that describe
+    # ONE way of writing tosieve (a branch per value shape, a value variable, the slot loop over args_definition ...) are recorded,
+    # not reported; S3 (what the written fragments lex as) is a clause of its own and stays.
+    st6 = None
+    try:
+        st6 = s6(ctx, R)
+    except AnalysisError:
+        st6 = None
+    prev = ctx.demote(("S1", "S2", "S4", "S5", "S"), "the evaluation of the serializer (S6)",
+                      keep_keys=("index-with-eq", "slot-skipped", "children-not-emitted")) if st6 == "ok" else None
+    try:
+        _serializer_structural(ctx, R, st6 is not None)
+    except AnalysisError as e:
+        if st6 != "ok":
+            raise
+        ctx.notice(e.rule, "serializer idiom not recognised by the structural rule (%s); decided by the evaluation (S6)" % e.why)
+    finally:
+        if prev is not None:
+            ctx.restore(prev)
+
+
+def _serializer_structural(ctx, R, s6_done):
     f = R.tosieve
     cfg = ctx.cfg(f)
     target = next((p for p in f.params if p == "target"), None)
@@ -217,7 +239,8 @@ def serializer_rules(ctx, R):
     # ---- S4 ------------------------------------------------------------------------
     ctx.rule("S4", "a text: block is followed by a newline before anything else is written (decided by the evaluation of rule S6: "
                    "every slot form holding a text: block)")
-    s6(ctx, R)
+    if not s6_done:
+        s6(ctx, R)
 
     # ---- S5 ------------------------------------------------------------------------
     ctx.rule("S5", "coverage: same args_definition, every present slot, every child, separators between consecutive tests only")
@@ -323,6 +346,8 @@ def s6(ctx, R):
             out.append(("string list of all item shapes", LIST_SHAPES))
         if "number" in ns:
             out.append(("number", NUMBER))
+            out.append(("number zero", "0"))
+            out.append(("number given as the integer 0 (the factory passes numbers through)", 0))
         return out
     scenarios = []
     for t in slot_types:
@@ -335,6 +360,13 @@ def s6(ctx, R):
         else:
             for label, v in shapes(t):
                 scenarios.append(("positional slot type %r" % (t,), {"name": "slot", "type": t, "required": True}, v, None, (label, v)))
+    # a tag whose parameter is restricted to some tags (valid_for), written by the user in another letter case: the recorder kept the
+    # parameter, the serializer must print it
+    for x in extra_types[:2]:
+        for label, v in shapes(x)[:1]:
+            scenarios.append(("tag slot with a valid_for parameter of type %r, tag written in upper case" % (x,),
+                              {"name": "slot", "type": ["tag"], "required": False, "extra_arg": {"type": x, "valid_for": [":tag"]}},
+                              ":TAG", v, (label, v)))
     TESTS = ["T1", "T2", "T3"]  # stand-ins for test objects: their own tosieve() writes <T1> ...
     for t in slot_types:
         if names(t) == ["testlist"]:
@@ -430,6 +462,8 @@ def s6(ctx, R):
                 problems.append("writes %r: not all of it is text" % (consts,))
                 continue
             text = "".join(consts)
+            if not isinstance(expect, str):
+                expect = str(expect)
             if text.count(expect) != 1:
                 problems.append("writes %r: the value %r does not appear exactly once, unchanged" % (text, expect))
                 continue
@@ -437,7 +471,7 @@ def s6(ctx, R):
             nxt = text[i + len(expect):i + len(expect) + 1]
             if label.startswith("text: block") and nxt != "\n":
                 problems.append("writes %r after the text: block instead of a newline" % (nxt,))
-            if extra is not None and not text[:i].endswith(":tag "):
+            if extra is not None and not text[:i].lower().endswith(":tag "):
                 problems.append("the tag and a space do not precede its parameter (%r)" % (text[:i],))
         if problems and guessed and len(problems) < len(paths):
             # not every path shows the problem and some paths rest on a guess: nothing is known about this scenario
@@ -450,6 +484,7 @@ def s6(ctx, R):
         else:
             ctx.holds("S6", "%s holding a %s (%d paths)" % (what, label, len(paths)))
     ctx.need("S6", "slot form x value shape scenarios", n - undecided, 12)
+    s6_status = "ok" if undecided == 0 and not any(f_.rule == "S6" for f_ in ctx.findings) else "partial"
     # items of a string list: the recorder stores complete quoted-string tokens (P14); each must be written back unchanged
     comps = [c for c in walk_no_nested(f.node) if isinstance(c, (ast.ListComp, ast.GeneratorExp)) and len(c.generators) == 1
              and isinstance(c.generators[0].iter, ast.Name) and isinstance(c.generators[0].target, ast.Name)]
@@ -472,6 +507,7 @@ def s6(ctx, R):
                           witness="a list item holding an escaped quote loses its escaping: the output does not re-parse to the same tree")
         else:
             ctx.holds("S6", "string-list items are written unchanged (%d item shapes, including escaped quotes at the end)" % len(items))
+    return s6_status if not any(f_.rule == "S6" for f_ in ctx.findings) else "partial"
 
 
 def enclosing_name(node):
